@@ -3,15 +3,25 @@
   (`CedarGo/Model/Validate/{Types,Check}.lean`).  The property theorems are in Properties/C15.lean.
 
   * `HasTy v τ`   — value `v` inhabits validator type `τ` (records are CLOSED: every key of the value is declared,
-                    every required attribute is present; `Ty.nil` and `Ty.never` are uninhabited).
+                    every required attribute is present; `Ty.nil` and `Ty.never` are uninhabited; an entity value has one
+                    of the LUB's entity types and is not the unspecified entity: its type name is not empty).
   * `Allowed k`   — the run-time failures the property permits: overflow, absent entity, extension errors.
-  * `CapsHold`    — the environment satisfies a capability set: for every capability `(p, a)` and every
-                    variable-rooted access path `e` without dotted attribute names that renders to `p`, `e has a` is true.
+  * `CapsHold`    — the environment satisfies a capability set: for every capability `(p, a, tag)` and every
+                    variable-rooted access path `e` with `exprCapPath e = p`, `e has a` (`e.hasTag("a")` for a tag
+                    capability) is true whenever it evaluates.
   * `Sound`       — the conclusion of the soundness theorem for one evaluation result.
-  * `EnvOK`       — `env ⊨ Γ`: request variables have the environment's entity types, the context inhabits its record type.
+  * `EntityOK`    — an entity PRESENT in the store conforms to its declared type: its attribute record inhabits the
+                    declared shape (required attributes present, optional ones well-typed if present, nothing else), every
+                    tag value has the declared tag type (no tags if none is declared), and every parent's entity type
+                    is one of the declared parent types (for an action entity, whose type has no declaration: the
+                    action's own entity type).
+  * `EnvOK`       — `env ⊨ Γ`: request variables have the environment's entity types (the action is the environment's
+                    action), the context inhabits its record type, every entity present in the store is `EntityOK`.
+                    Entities may be absent.
 -/
 import CedarGo.Model.Validate.Check
 import CedarGoProofs.Lemmas.RecordLit
+import CedarGoProofs.Lemmas.C15EntTypes
 namespace CedarGo.Validate
 open CedarGo
 
@@ -27,7 +37,7 @@ inductive HasTy : Value → Ty → Prop
       (∀ k v, kvGet k kvs = some v → (lookupAttr k attrs).isSome = true) →
       (∀ k t, lookupAttr k attrs = some (t, true) → (kvGet k kvs).isSome = true) →
       HasTy (.record kvs) (.record attrs)
-  | entity {ty id : String} {tys : List String} : ty ∈ tys → HasTy (.entity ty id) (.entity tys)
+  | entity {ty id : String} {tys : List String} : ty ∈ tys → ty ≠ "" → HasTy (.entity ty id) (.entity tys)
   | decimal (n : Int) : HasTy (.decimal n) (.ext .decimal)
   | datetime (n : Int) : HasTy (.datetime n) (.ext .datetime)
   | duration (n : Int) : HasTy (.duration n) (.ext .duration)
@@ -36,9 +46,13 @@ inductive HasTy : Value → Ty → Prop
 def Allowed (k : Err) : Prop :=
   k = .overflow ∨ k = .entity ∨ k = .extDecimal ∨ k = .extIP ∨ k = .extDatetime ∨ k = .extDuration
 
+/-- the test a capability stands for: `e has a`, or `e.hasTag("a")` for a tag capability -/
+def capExpr (e : Expr) (a : String) (tag : Bool) : Expr :=
+  if tag then .binop .hasTag e (.lit (.str a)) else .has e a
+
 def CapsHold (env : Env) (caps : Caps) : Prop :=
-  ∀ p a, (p, a) ∈ caps → ∀ e, exprCapPath e = p → p ≠ [] →
-    ∀ b, eval (.has e a) env = .ok (.bool b) → b = true
+  ∀ p a t, (p, a, t) ∈ caps → ∀ e, exprCapPath e = p → p ≠ [] →
+    ∀ b, eval (capExpr e a t) env = .ok (.bool b) → b = true
 
 def SoundRes (env : Env) (τ : Ty) (caps' : Caps) : Res → Prop
   | .ok v => HasTy v τ ∧ (v = .bool true → CapsHold env caps')
@@ -49,34 +63,43 @@ def SoundRes (env : Env) (τ : Ty) (caps' : Caps) : Res → Prop
 def Sound (env : Env) (τ : Ty) (caps' : Caps) (r : Res) : Prop :=
   ((τ = .tt ∨ τ = .never) → CapsHold env caps') ∧ SoundRes env τ caps' r
 
+/-- an entity present in the store conforms to the declaration of its entity type (`Validator.Entity`) -/
+structure EntityOK (Γ : TEnv) (uid : UID) (d : EntityData) : Prop where
+  attrs : HasTy (.record d.attrs) (.record (declOf Γ uid.1).attrs)
+  tags : ∀ k v, kvGet k d.tags = some v → ∃ t, (declOf Γ uid.1).tags = some t ∧ HasTy v t
+  parents : ∀ p ∈ d.parents, p.1 ∈ (declOf Γ uid.1).parents ∨ (isActionEntity uid.1 = true ∧ p.1 = uid.1)
+
 structure EnvOK (Γ : TEnv) (env : Env) : Prop where
   principal : ∃ i, env.principal = .entity Γ.principalType i
-  action : ∃ i, env.action = .entity Γ.action.1 i
+  action : env.action = .entity Γ.action.1 Γ.action.2
   resource : ∃ i, env.resource = .entity Γ.resourceType i
   context : ∃ kvs, env.context = .record kvs ∧ HasTy (.record kvs) (.record Γ.context)
+  /-- entity type names are not empty (the entity with empty type and id is Go's "unspecified entity") -/
+  names : Γ.principalType ≠ "" ∧ Γ.action.1 ≠ "" ∧ Γ.resourceType ≠ "" ∧ "" ∉ Γ.entityTypes
+  store : ∀ uid d, env.entities.get uid = some d → EntityOK Γ uid d
 
 theorem hasTy_boolish {v : Value} {τ : Ty} (hb : isBoolTy τ = true) (h : HasTy v τ) : ∃ b, v = .bool b := by
   cases h <;> simp [isBoolTy] at hb <;> exact ⟨_, rfl⟩
 
 theorem capsHold_nil (env : Env) : CapsHold env [] := by
-  intro p a h; simp at h
+  intro p a t h; simp at h
 
 theorem capsHold_merge {env : Env} {a b : Caps} (ha : CapsHold env a) (hb : CapsHold env b) : CapsHold env (a.merge b) := by
-  intro p x h
+  intro p x t h
   simp only [Caps.merge, List.mem_append] at h
   cases h with
-  | inl h => exact ha p x h
-  | inr h => exact hb p x h
+  | inl h => exact ha p x t h
+  | inr h => exact hb p x t h
 
 theorem capsHold_intersect_left {env : Env} {a b : Caps} (ha : CapsHold env a) : CapsHold env (a.intersect b) := by
-  intro p x h
+  intro p x t h
   simp only [Caps.intersect, List.mem_filter] at h
-  exact ha p x h.1
+  exact ha p x t h.1
 
 theorem capsHold_intersect_right {env : Env} {a b : Caps} (hb : CapsHold env b) : CapsHold env (a.intersect b) := by
-  intro p x h
+  intro p x t h
   simp only [Caps.intersect, List.mem_filter, List.contains_iff_mem] at h
-  exact hb p x h.2
+  exact hb p x t h.2
 
 /-- what the induction hypothesis gives for one operand -/
 theorem sound_cases {env : Env} {τ : Ty} {c : Caps} {r : Res} (h : Sound env τ c r) :
@@ -101,7 +124,23 @@ theorem soundRes_err {env : Env} {τ : Ty} {c : Caps} {k : Err} (h : Allowed k) 
 section nodes
 variable {Γ : TEnv} {env : Env}
 
-theorem sound_lit {v : Value} {caps caps' : Caps} {τ : Ty} (hc : CapsHold env caps)
+theorem isActionEntity_ne_empty {t : String} (h : isActionEntity t = true) : t ≠ "" := by
+  intro h0; subst h0; exact absurd h (by decide)
+
+theorem typeOfEntityUID_inv {ty i : String} {t : Ty} (hn : "" ∉ Γ.entityTypes) (h : typeOfEntityUID Γ ty i = some t) :
+    t = .entity [ty] ∧ ty ≠ "" := by
+  simp only [typeOfEntityUID] at h
+  split at h
+  · rename_i hc
+    refine ⟨by simpa using h.symm, ?_⟩
+    intro h0; subst h0; exact hn (by simpa using hc)
+  · split at h
+    · rename_i hc
+      simp only [Bool.and_eq_true] at hc
+      exact ⟨by simpa using h.symm, isActionEntity_ne_empty hc.1⟩
+    · simp at h
+
+theorem sound_lit (hΓ : EnvOK Γ env) {v : Value} {caps caps' : Caps} {τ : Ty} (hc : CapsHold env caps)
     (h : typeOf true Γ (.lit v) caps = .ok (τ, caps')) : Sound env τ caps' (eval (.lit v) env) := by
   simp only [typeOf] at h
   split at h
@@ -120,14 +159,8 @@ theorem sound_lit {v : Value} {caps caps' : Caps} {τ : Ty} (hc : CapsHold env c
       split at ht
       · rename_i ty' hty
         simp only [Except.ok.injEq] at ht; subst ht
-        have : ty' = .entity [ty] := by
-          simp only [typeOfEntityUID] at hty
-          split at hty
-          · simpa using hty.symm
-          · split at hty
-            · simpa using hty.symm
-            · simp at hty
-        subst this; exact HasTy.entity (by simp)
+        obtain ⟨this, hne⟩ := typeOfEntityUID_inv hΓ.names.2.2.2 hty
+        subst this; exact HasTy.entity (by simp) hne
       · simp at ht
     | _ => simp [typeOfValue] at ht
   · simp at h
@@ -137,9 +170,9 @@ theorem sound_var (hΓ : EnvOK Γ env) {x : Var} {caps caps' : Caps} {τ : Ty} (
   simp only [typeOf, Except.ok.injEq, Prod.mk.injEq] at h
   obtain ⟨rfl, rfl⟩ := h
   cases x with
-  | principal => obtain ⟨i, hi⟩ := hΓ.principal; refine sound_same hc ?_; simp only [eval, hi, SoundRes, typeOfVar]; exact ⟨HasTy.entity (by simp), fun _ => hc⟩
-  | action => obtain ⟨i, hi⟩ := hΓ.action; refine sound_same hc ?_; simp only [eval, hi, SoundRes, typeOfVar]; exact ⟨HasTy.entity (by simp), fun _ => hc⟩
-  | resource => obtain ⟨i, hi⟩ := hΓ.resource; refine sound_same hc ?_; simp only [eval, hi, SoundRes, typeOfVar]; exact ⟨HasTy.entity (by simp), fun _ => hc⟩
+  | principal => obtain ⟨i, hi⟩ := hΓ.principal; refine sound_same hc ?_; simp only [eval, hi, SoundRes, typeOfVar]; exact ⟨HasTy.entity (by simp) hΓ.names.1, fun _ => hc⟩
+  | action => have hi := hΓ.action; refine sound_same hc ?_; simp only [eval, hi, SoundRes, typeOfVar]; exact ⟨HasTy.entity (by simp) hΓ.names.2.1, fun _ => hc⟩
+  | resource => obtain ⟨i, hi⟩ := hΓ.resource; refine sound_same hc ?_; simp only [eval, hi, SoundRes, typeOfVar]; exact ⟨HasTy.entity (by simp) hΓ.names.2.2.1, fun _ => hc⟩
   | context => obtain ⟨kvs, hk, ht⟩ := hΓ.context; refine sound_same hc ?_; simp only [eval, hk, SoundRes, typeOfVar]; exact ⟨ht, fun _ => hc⟩
 
 /-- one operand evaluated, converted and mapped to a result whose capabilities are the incoming ones -/
@@ -266,7 +299,9 @@ theorem lub_sound_left (s : Bool) : ∀ (a b c : Ty) (v : Value), lub true s a b
   | .entity ts, b, c, v, h, hv => by
     cases b <;> simp [lub] at h
     · subst h; exact hv
-    · subst h; cases hv; rename_i hm; exact HasTy.entity (by simp [unionTys, hm])
+    · subst h
+      cases hv with
+      | entity hm hne => exact HasTy.entity (mem_unionTys.mpr (.inl hm)) hne
   | .set ea, b, c, v, h, hv => by
     cases b <;> simp [lub] at h
     · subst h; exact hv
@@ -382,9 +417,7 @@ theorem lub_sound_right (s : Bool) : ∀ (a b c : Ty) (v : Value), lub true s a 
     · cases hv
     · subst h
       cases hv with
-      | @entity ty id ts' hm =>
-        refine HasTy.entity ?_
-        by_cases hin : ty ∈ ts <;> simp [unionTys, hin, hm]
+      | @entity ty id ts' hm hne => exact HasTy.entity (mem_unionTys.mpr (.inr hm)) hne
   | .set ea, b, c, v, h, hv => by
     cases b <;> simp [lub] at h
     · cases hv
@@ -755,7 +788,7 @@ theorem generalEq_sound {lt rt t : Ty} {neg : Bool} {a b : Value}
     simp only [Except.ok.injEq] at heq; subst heq
     have hab : a.beq b = false := by
       cases ha <;> cases hb <;> simp [areTypesDisjoint] at hdis
-      rename_i hta _ _ _ htb
+      rename_i hta _ _ _ _ htb _
       simp only [Value.beq, Bool.and_eq_false_imp, beq_iff_eq]
       intro hEq; subst hEq
       simp only [disjointTys, List.all_eq_true] at hdis
@@ -783,7 +816,7 @@ theorem equalityType_sound (hΓ : EnvOK Γ env) {l r : Expr} {lt rt t : Ty} {neg
         have hab : a.beq b = true := by
           cases x
           · obtain ⟨i, hi⟩ := hΓ.principal; simp [eval, hi] at hl hr; subst hl; subst hr; simp [Value.beq]
-          · obtain ⟨i, hi⟩ := hΓ.action; simp [eval, hi] at hl hr; subst hl; subst hr; simp [Value.beq]
+          · have hi := hΓ.action; simp [eval, hi] at hl hr; subst hl; subst hr; simp [Value.beq]
           · obtain ⟨i, hi⟩ := hΓ.resource; simp [eval, hi] at hl hr; subst hl; subst hr; simp [Value.beq]
           · simp at hctx
         rw [hab]; exact foldTy_hasTy true neg
@@ -1022,22 +1055,25 @@ theorem eval_has_record {e : Expr} {a : String} {kvs : List (String × Value)} (
 theorem capsHold_add {caps : Caps} {p : List String} {a : String} (hc : CapsHold env caps)
     (hnew : ∀ e, exprCapPath e = p → p ≠ [] → ∀ b, eval (.has e a) env = .ok (.bool b) → b = true) :
     CapsHold env (caps.add p a) := by
-  intro p' a' hm e hname hne b hb
+  intro p' a' t hm e hname hne b hb
   simp only [Caps.add, List.mem_cons, Prod.mk.injEq] at hm
-  rcases hm with ⟨rfl, rfl⟩ | hm
+  rcases hm with ⟨rfl, rfl, rfl⟩ | hm
   · exact hnew e hname hne b hb
-  · exact hc p' a' hm e hname hne b hb
+  · exact hc p' a' t hm e hname hne b hb
 
-theorem sound_has {e : Expr} {a : String} {caps caps' : Caps} {τ : Ty} (ih : IH Γ env e) (hc : CapsHold env caps)
+/-- using an attribute capability -/
+theorem capsHold_has {caps : Caps} (hc : CapsHold env caps) {e : Expr} {a : String}
+    (hm : caps.has (exprCapPath e) a = true) (hne : exprCapPath e ≠ []) :
+    ∀ b, eval (.has e a) env = .ok (.bool b) → b = true :=
+  fun b hb => hc (exprCapPath e) a false (by simpa [Caps.has] using hm) e rfl hne b hb
+
+/-- `has` on an operand of RECORD type (entity types: `sound_has_entity` in C15EntAttr.lean) -/
+theorem sound_has_record {e : Expr} {a : String} {caps caps' c : Caps} {τ : Ty} {attrs : Attrs} (ih : IH Γ env e)
+    (hc : CapsHold env caps) (he : typeOf true Γ e caps = .ok (.record attrs, c))
     (h : typeOf true Γ (.has e a) caps = .ok (τ, caps')) : Sound env τ caps' (eval (.has e a) env) := by
-  simp only [typeOf] at h
-  split at h
-  · simp at h
-  · rename_i t c he
-    have hs := (ih _ _ _ hc he).2
-    split at h
-    · rename_i attrs
-      · -- what evaluation of the operand gives
+  simp only [typeOf, he] at h
+  have hs := (ih _ _ _ hc he).2
+  · · · -- what evaluation of the operand gives
         have hev : (∃ k, eval e env = .error k ∧ Allowed k) ∨
             (∃ kvs, eval e env = .ok (.record kvs) ∧ HasTy (.record kvs) (.record attrs)) := by
           cases hr : eval e env with
@@ -1099,8 +1135,7 @@ theorem sound_has {e : Expr} {a : String} {caps caps' : Caps} {τ : Ty} (ih : IH
           by_cases hcap : (!(exprCapPath e).isEmpty && caps.has (exprCapPath e) a) = true
           · simp only [hcap, if_true]
             simp only [Bool.and_eq_true, Bool.not_eq_true', List.isEmpty_eq_false_iff] at hcap
-            have htrue : ∀ b, eval (.has e a) env = .ok (.bool b) → b = true :=
-              fun b hb => hc (exprCapPath e) a (by simpa [Caps.has] using hcap.2) e rfl hcap.1 b hb
+            have htrue : ∀ b, eval (.has e a) env = .ok (.bool b) → b = true := capsHold_has hc hcap.2 hcap.1
             refine ⟨fun _ => hcapsNew htrue, ?_⟩
             rcases hev with ⟨k, hk, hak⟩ | ⟨kvs, hk, hty⟩
             · exact herr _ _ k hk hak
@@ -1117,19 +1152,14 @@ theorem sound_has {e : Expr} {a : String} {caps caps' : Caps} {τ : Ty} (ih : IH
               rw [eval_has_record hk] at hb
               simp only [Except.ok.injEq, Value.bool.injEq] at hb htrue
               rw [← hb]; exact htrue
-    · simp at h
-    · simp at h
 
-theorem sound_access {e : Expr} {a : String} {caps caps' : Caps} {τ : Ty} (ih : IH Γ env e) (hc : CapsHold env caps)
+/-- `.` on an operand of RECORD type (entity types: `sound_access_entity` in C15EntAttr.lean) -/
+theorem sound_access_record {e : Expr} {a : String} {caps caps' c : Caps} {τ : Ty} {attrs : Attrs} (ih : IH Γ env e)
+    (hc : CapsHold env caps) (he : typeOf true Γ e caps = .ok (.record attrs, c))
     (h : typeOf true Γ (.access e a) caps = .ok (τ, caps')) : Sound env τ caps' (eval (.access e a) env) := by
-  simp only [typeOf] at h
-  split at h
-  · simp at h
-  · rename_i t c he
-    have hs := (ih _ _ _ hc he).2
-    split at h
-    · rename_i attrs
-      · split at h
+  simp only [typeOf, he] at h
+  have hs := (ih _ _ _ hc he).2
+  · · · split at h
         · simp at h
         · rename_i aty req hl
           split at h
@@ -1154,13 +1184,11 @@ theorem sound_access {e : Expr} {a : String} {caps caps' : Caps} {τ : Ty} (ih :
                       Bool.not_eq_false] at hguard
                     have hne : exprCapPath e ≠ [] := by
                       intro h0; simp [h0] at hguard
-                    exact hc (exprCapPath e) a (by simpa [Caps.has] using hguard.2) e rfl hne _ (eval_has_record hr)
+                    exact capsHold_has hc hguard.2 hne _ (eval_has_record hr)
                 rw [Option.isSome_iff_exists] at hpresent
                 obtain ⟨x, hx⟩ := hpresent
                 simp only [eval, hr, bind, Except.bind, hx]
                 exact ⟨h1 a x aty req hx hl, fun _ => hc⟩
-    · simp at h
-    · simp at h
 
 end nodes4
 
@@ -2046,6 +2074,73 @@ theorem lub_ne_none_go {s : Bool} {a b : Ty} (h : ¬ lub true s a b = none) : ¬
   | none => exact absurd hl h
   | some c => simp [lub_dom_go s a b c hl]
 
+theorem lookupEntityAttrGo_dom_go (s : Bool) (Γ : TEnv) (a : String) : ∀ (tys : List String) (res : Option (Ty × Bool)) (r : Ty × Bool),
+    lookupEntityAttrGo true s Γ a res tys = some r → lookupEntityAttrGo false s Γ a res tys = some r
+  | [], res, r, h => by simpa [lookupEntityAttrGo] using h
+  | t :: ts, res, r, h => by
+    simp only [lookupEntityAttrGo] at h ⊢
+    cases hl : lookupAttr a (declOf Γ t).attrs with
+    | none => simp [hl] at h
+    | some q =>
+      obtain ⟨ty, req⟩ := q
+      simp only [hl] at h ⊢
+      cases res with
+      | none => exact lookupEntityAttrGo_dom_go s Γ a ts _ r h
+      | some p =>
+        obtain ⟨rty, rreq⟩ := p
+        simp only [] at h ⊢
+        cases hu : lub true s rty ty with
+        | none => simp [hu] at h
+        | some u =>
+          simp only [hu] at h
+          rw [lub_dom_go s rty ty u hu]
+          exact lookupEntityAttrGo_dom_go s Γ a ts _ r h
+
+theorem lookupEntityAttr_dom_go {s : Bool} {Γ : TEnv} {tys : List String} {a : String} {r : Ty × Bool}
+    (h : lookupEntityAttr true s Γ tys a = some r) : lookupEntityAttr false s Γ tys a = some r :=
+  lookupEntityAttrGo_dom_go s Γ a tys none r h
+
+theorem entityTagType_dom_go (s : Bool) (Γ : TEnv) : ∀ (tys : List String) (acc r : Ty),
+    entityTagType true s Γ acc tys = some r → entityTagType false s Γ acc tys = some r
+  | [], acc, r, h => by simpa [entityTagType] using h
+  | t :: ts, acc, r, h => by
+    simp only [entityTagType] at h ⊢
+    cases ht : (declOf Γ t).tags with
+    | none => simpa [ht] using h
+    | some tagTy =>
+      simp only [ht] at h ⊢
+      cases hu : lub true s acc tagTy with
+      | none => simp [hu] at h
+      | some u =>
+        simp only [hu] at h
+        rw [lub_dom_go s acc tagTy u hu]
+        exact entityTagType_dom_go s Γ ts u r h
+
+theorem hasTagResult_dom_go {Γ : TEnv} {l r : Expr} {lt rt : Ty} {caps : Caps} {res : Ty × Caps}
+    (h : hasTagResult true Γ l r lt rt caps = .ok res) : hasTagResult false Γ l r lt rt caps = .ok res := by
+  unfold hasTagResult at h ⊢
+  split at h
+  · simp only [Bool.true_and] at h
+    split at h
+    · simp at h
+    · simpa using h
+  · simp at h
+
+theorem getTagResult_dom_go {Γ : TEnv} {l r : Expr} {lt rt : Ty} {caps : Caps} {res : Ty}
+    (h : getTagResult true Γ l r lt rt caps = .ok res) : getTagResult false Γ l r lt rt caps = .ok res := by
+  unfold getTagResult at h ⊢
+  split at h
+  · simp only [Bool.true_and] at h
+    split at h
+    · simp at h
+    · simp only [Bool.false_and, Bool.false_eq_true, if_false]
+      split at h
+      · simp at h
+      · rename_i tagTy ht
+        rw [entityTagType_dom_go _ _ _ _ _ ht]
+        exact h
+  · simp at h
+
 section domgo
 variable {Γ : TEnv}
 
@@ -2328,11 +2423,68 @@ theorem typeOf_dom_go : ∀ (e : Expr) (caps : Caps) (res : Ty × Caps), typeOf 
               exact ⟨Option.isSome_iff_ne_none.mpr (lub_ne_none_go hcond.1), hcond.2⟩
             simp only [this, Bool.false_eq_true, if_false]; exact h
         · simp at h
-  | .binop .in_ _ _, _, _, h => by simp [typeOf] at h
-  | .binop .getTag _ _, _, _, h => by simp [typeOf] at h
-  | .binop .hasTag _ _, _, _, h => by simp [typeOf] at h
-  | .is _ _, _, _, h => by simp [typeOf] at h
-  | .isIn _ _ _, _, _, h => by simp [typeOf] at h
+  | .binop .in_ l r, caps, res, h => by
+    simp only [typeOf] at h ⊢
+    cases hl : typeOf true Γ l caps with
+    | error e => simp [hl] at h
+    | ok p =>
+      obtain ⟨lt, lc⟩ := p
+      rw [typeOf_dom_go l caps _ hl]; simp only [hl] at h
+      cases hr : typeOf true Γ r caps with
+      | error e => simp [hr] at h
+      | ok q =>
+        obtain ⟨rt, rc⟩ := q
+        rw [typeOf_dom_go r caps _ hr]; simp only [hr] at h
+        exact h
+  | .binop .getTag l r, caps, res, h => by
+    simp only [typeOf] at h ⊢
+    cases hl : typeOf true Γ l caps with
+    | error e => simp [hl] at h
+    | ok p =>
+      obtain ⟨lt, lc⟩ := p
+      rw [typeOf_dom_go l caps _ hl]; simp only [hl] at h
+      cases hr : typeOf true Γ r caps with
+      | error e => simp [hr] at h
+      | ok q =>
+        obtain ⟨rt, rc⟩ := q
+        rw [typeOf_dom_go r caps _ hr]; simp only [hr] at h
+        simp only []
+        split at h
+        · rename_i ty hg; rw [getTagResult_dom_go hg]; exact h
+        · simp at h
+  | .binop .hasTag l r, caps, res, h => by
+    simp only [typeOf] at h ⊢
+    cases hl : typeOf true Γ l caps with
+    | error e => simp [hl] at h
+    | ok p =>
+      obtain ⟨lt, lc⟩ := p
+      rw [typeOf_dom_go l caps _ hl]; simp only [hl] at h
+      cases hr : typeOf true Γ r caps with
+      | error e => simp [hr] at h
+      | ok q =>
+        obtain ⟨rt, rc⟩ := q
+        rw [typeOf_dom_go r caps _ hr]; simp only [hr] at h
+        exact hasTagResult_dom_go h
+  | .is e ty, caps, res, h => by
+    simp only [typeOf] at h ⊢
+    split at h
+    · simp at h
+    · rename_i t c he
+      rw [typeOf_dom_go e caps _ he]
+      exact h
+  | .isIn e ty r, caps, res, h => by
+    simp only [typeOf] at h ⊢
+    cases hl : typeOf true Γ e caps with
+    | error x => simp [hl] at h
+    | ok p =>
+      obtain ⟨lt, lc⟩ := p
+      rw [typeOf_dom_go e caps _ hl]; simp only [hl] at h
+      cases hr : typeOf true Γ r caps with
+      | error x => simp [hr] at h
+      | ok q =>
+        obtain ⟨rt, rc⟩ := q
+        rw [typeOf_dom_go r caps _ hr]; simp only [hr] at h
+        exact h
   | .has e a, caps, res, h => by
     simp only [typeOf] at h ⊢
     split at h
@@ -2346,7 +2498,15 @@ theorem typeOf_dom_go : ∀ (e : Expr) (caps : Caps) (res : Ty × Caps), typeOf 
     · simp at h
     · rename_i t c he
       rw [typeOf_dom_go e caps _ he]
-      exact h
+      simp only []
+      split at h
+      · exact h
+      · rename_i tys
+        split at h
+        · simp at h
+        · rename_i aty req hl
+          rw [lookupEntityAttr_dom_go hl]; exact h
+      · exact h
   | .set es, caps, res, h => by
     simp only [typeOf] at h ⊢
     split at h
